@@ -152,7 +152,19 @@ func buildDeb(vec J) (builtDeb, error) {
 		for _, ix := range L(s["over"]) {
 			signed = append(signed, members[I(ix)-1].Data...)
 		}
-		members[i] = arMember{s["name"].(string), detachSign(key(s["key"].(string)), signed)}
+		sigBytes := detachSign(key(s["key"].(string)), signed)
+		if more, ok := s["more"]; ok && more != nil {
+			// further signature packets in the same member, each over the members it names (none = the empty input)
+			for _, pj := range L(more) {
+				p := M(pj)
+				var over []byte
+				for _, ix := range L(p["over"]) {
+					over = append(over, members[I(ix)-1].Data...)
+				}
+				sigBytes = append(sigBytes, detachSign(key(p["key"].(string)), over)...)
+			}
+		}
+		members[i] = arMember{s["name"].(string), sigBytes}
 	}
 	b := layout(members)
 	// optional tampering after signing
@@ -437,6 +449,11 @@ func execDeb(vec J, out *Writer) {
 			c := cols[vec["col"].(string)]
 			text := fmt.Sprintf("%-*s", c[1]-c[0], S(vec["text"]))
 			copy(b[hdr+c[0]:hdr+c[1]], text[:c[1]-c[0]])
+		case "binary_text":
+			// the debian-binary member replaced by a hostile text
+			ms := append([]arMember{}, base.Members...)
+			ms[0] = arMember{ms[0].Name, []byte(S(vec["text"]))}
+			b = buildAr(ms)
 		case "extra_member":
 			// one more member appended to the archive (e.g. "control.sig", "data.sig")
 			ms := append(append([]arMember{}, base.Members...), arMember{vec["name"].(string), []byte("not a tarball\n")})
@@ -531,6 +548,9 @@ func genDebRaw(r *rand.Rand, tier string, out *Writer) {
 		out.Put(J{"k": "debraw", "ctl": comps[0], "data": comps[1], "op": "none"})
 		for _, nm := range []string{"control.sig", "data.sig", "control.tar", "data.tar.gz", "_gpgorigin", "control.", "data.x.tar"} {
 			out.Put(J{"k": "debraw", "ctl": comps[0], "data": comps[1], "op": "extra_member", "name": nm})
+		}
+		for _, t := range []string{"", "\n", "\n\n", "\n2.0\n", "2", "2.", "2\n", "2.\n", ".\n", "2.0", "\x00\n", " 2.0\n", "20.0\n", "2.0\r\n"} {
+			out.Put(J{"k": "debraw", "ctl": comps[0], "data": comps[1], "op": "binary_text", "text": B(t)})
 		}
 		for off := r.Intn(stride); off < n; off += stride {
 			out.Put(J{"k": "debraw", "ctl": comps[0], "data": comps[1], "op": "flip", "off": off, "mask": 1 << uint(r.Intn(8))})
